@@ -230,6 +230,52 @@ pub fn search(tier: &str, seed: u64, s: &mut Search) {
             }
         }
     }
+    // geometry just outside the page whose stroke, markers or effect reach in: no canvas margin, so a shift moves the
+    // geometry across the canvas edge while the visible part stays inside in both renderings
+    let ne = (if tier == "thorough" { 400 } else { 48 }) * mult;
+    for i in 0..ne {
+        let (w, h) = (200i64, 160i64);
+        let off = rng.range(2, 14); // how far outside the centre line lies
+        let sw = 2 * off + rng.range(8, 40); // wide enough to reach in
+        let cap = *rng.pick(&["butt", "round", "square"]);
+        let side = i % 4;
+        let line = match side {
+            0 => format!(r#"x1="-{off}" y1="0" x2="-{off}" y2="{h}""#),
+            1 => format!(r#"x1="0" y1="-{off}" x2="{w}" y2="-{off}""#),
+            2 => format!(r#"x1="{}" y1="0" x2="{}" y2="{h}""#, w + off, w + off),
+            _ => format!(r#"x1="0" y1="{}" x2="{w}" y2="{}""#, h + off, h + off),
+        };
+        let extra = match (i / 4) % 4 {
+            0 => String::new(),
+            1 => r#" opacity="0.6""#.to_string(),
+            2 => r#" stroke-dasharray="30 10""#.to_string(),
+            _ => r##" marker-start="url(#mk)" marker-end="url(#mk)""##.to_string(),
+        };
+        let svg = format!(
+            r##"<svg xmlns="http://www.w3.org/2000/svg" width="{w}" height="{h}"><defs><marker id="mk" markerWidth="6" markerHeight="6" refX="3" refY="3" overflow="visible"><circle cx="3" cy="3" r="3" fill="gold"/></marker></defs><line {line} stroke="#1b4f72" stroke-width="{sw}" stroke-linecap="{cap}"{extra}/><path d="M -{off} -{off} L {} -{off} L {} {}" fill="none" stroke="#b03a2e" stroke-width="{sw}" stroke-linejoin="{}"/><circle cx="110" cy="90" r="40" fill="#f7dc6f" stroke="#7d6608" stroke-width="6"/></svg>"##,
+            w + off, w + off, h + off, rng.pick(&["miter", "round", "bevel"])
+        );
+        let Ok(Ok(tree)) = pan::catch(|| usvg::Tree::from_str(&svg, &crate::corpus::opts_for(None))) else { continue };
+        let scale = if rng.chance(1, 3) { 2.0f32 } else { 1.0 };
+        // a shift that carries the outside geometry inwards, across the edge
+        let mag = (off as i32 + rng.range(1, 25) as i32) * if scale > 1.5 { 2 } else { 1 };
+        let (dx, dy) = match side {
+            0 => (mag, rng.range(-9, 9) as i32),
+            1 => (rng.range(-9, 9) as i32, mag),
+            2 => (-mag, rng.range(-9, 9) as i32),
+            _ => (rng.range(-9, 9) as i32, -mag),
+        };
+        let key = format!("{} d=({},{}) scale={}", svg, dx, dy, scale);
+        match translate_differs_m(&tree, scale, dx, dy, 0) {
+            None => s.case("edge-crossing-render-failed", &key, false),
+            Some((what, painted)) => {
+                s.case("edge-crossing", &key, painted);
+                if !what.is_empty() {
+                    s.finding("oracle:translate-commutes:edge-crossing", &format!("render(translate({},{})·M) differs from the shifted render(M) at scale {} (no canvas margin): {}", dx, dy, scale, what), &key);
+                }
+            }
+        }
+    }
     // filter regions far larger than the canvas (the layer is limited by the 5x5-canvas box, the region is not),
     // with primitives whose output depends on position
     let prims: [(&str, &str); 8] = [
